@@ -173,11 +173,11 @@ impl SourceView {
     /// Returns a requested minified line.
     pub fn get_line(&self, idx: u32) -> Option<&str> {
         let idx = idx as usize;
-        {
-            let lines = self.lines.lock().unwrap();
-            if idx < lines.len() {
-                return Some(lines[idx]);
-            }
+        // Hold the lock from the cached-line check to the end of the indexing loop: the
+        // progress counter must not move between the checks below and the loop.
+        let mut lines = self.lines.lock().unwrap();
+        if idx < lines.len() {
+            return Some(lines[idx]);
         }
         #[cfg(sourcemap_verif)]
         crate::verif::yield_point(1);
@@ -189,7 +189,6 @@ impl SourceView {
         #[cfg(sourcemap_verif)]
         crate::verif::yield_point(2);
 
-        let mut lines = self.lines.lock().unwrap();
         #[cfg(sourcemap_verif)]
         crate::verif::yield_point(3);
         let mut done = false;
